@@ -790,6 +790,15 @@ func vC03RunOnce(t *testing.T, c *vh.Case, sc *vC03Sc, cm vC03Cancel) *vC03Out {
 			tcMu.Unlock()
 			cancelRoot()
 		})
+	case "closed":
+		// the instance is closed before the operation starts; the caller's context stays live
+		_ = n.D.Close()
+	case "closeat":
+		// the instance is closed under the running operation; the caller's context stays live
+		cancelTimer = time.AfterFunc(cm.At, func() {
+			_, out.InflightAtCancel = vC03Activity(n, seq0, t0)
+			_ = n.D.Close()
+		})
 	}
 	var waits []func()
 	if sc.Events == "query" || sc.Events == "both" {
@@ -857,6 +866,23 @@ func vC03RunOnce(t *testing.T, c *vh.Case, sc *vC03Sc, cm vC03Cancel) *vC03Out {
 	tick.Stop()
 	if cancelTimer != nil {
 		cancelTimer.Stop()
+	}
+	if cm.Mode == "closed" || cm.Mode == "closeat" {
+		// Only "returns" is judged here (op-hang above, panics in the operation's goroutine): what an operation on a
+		// closed instance returns, and how fast its background work ends, is C14's subject (unit ipfsdht).
+		c.Clause("returns-on-closed-instance")
+		for _, o := range runs {
+			c.Obs("op_"+o.Name+"_on_closed_instance", 1)
+		}
+		cancelRoot()
+		for _, w := range waits {
+			w()
+		}
+		n.Close()
+		closed = true
+		synctest.Wait()
+		out.Sig = fmt.Sprintf("%v/%s", sc.Ops, cm.Mode)
+		return out
 	}
 	tcMu.Lock()
 	tc := tCancel
@@ -1156,6 +1182,16 @@ func vC03GenCancel(r *rand.Rand) vC03Cancel {
 			ms *= 2
 		}
 		return vC03Cancel{Mode: "at", At: time.Duration(ms*(1+r.Float64())) * time.Millisecond}
+	case x == 19:
+		// the instance itself is closed, before the operation or under it (1 ms .. ~2 s after its start)
+		if r.Intn(2) == 0 {
+			return vC03Cancel{Mode: "closed"}
+		}
+		ms := 1.0
+		for i := r.Intn(12); i > 0; i-- {
+			ms *= 2
+		}
+		return vC03Cancel{Mode: "closeat", At: time.Duration(ms*(1+r.Float64())) * time.Millisecond}
 	default:
 		// deadlines on both sides of classicProvide's 10 s budgeting rule
 		ds := []time.Duration{5 * time.Millisecond, 300 * time.Millisecond, 2 * time.Second, 9 * time.Second, 11 * time.Second, 25 * time.Second, 60 * time.Second}
@@ -1195,7 +1231,7 @@ func vC03Describe(c *vh.Case, sc *vC03Sc, cm vC03Cancel) {
 func TestVerif_C03_ops(t *testing.T) {
 	vh.Run(t, vh.Spec{Prop: "C03", Unit: "ops", Quick: 1600, Thorough: 80000, CostMs: 18,
 		Rule:    "PRNG case = simulated network (N 0-150; K in {1,2,3,5,8,20}, alpha in {1,2,3,10}, beta in {1,2,3,K}; knowledge full/kbucket/sparse; 0-90% (or all) peers failing by dial error, slow dial error, dials that take 2-9.5 s, request error, silence (10 s simulated read timeout), late answers (2-9.5 s), per-request flakiness, failing only the store RPC, answering once then silent; liars adding self / duplicates / strangers / 200 entries / themselves / mis-keyed records; value and provider records on some peers and locally; optional earlier lookups that filled the table; optional query/lookup event consumers; slow channel consumer) x one of GetClosestPeers, FindPeer, GetValue, SearchValue, FindProviders, FindProvidersAsync (every 16th case index with an undefined CID), PutValue, Provide(classic) x cancel mode {none, cancelled before the call, expired deadline, cancel at a log-uniform virtual instant 1 ms-60 s, ctx deadline 5 ms-61 s}; every second SearchValue / FindProvidersAsync case is run once more with a consumer that cancels its context on the first item and stops reading; every 40th case is forced to a GetValue/SearchValue with Quorum 1-2, alpha 3 or 10, >= 25 peers all holding valid records, latencies 1-400 ms, un-cancelled context; oracle in virtual time over the simulated wire/dial log + goroutine census; non-trivial = >= 1 RPC and (a contacted peer failed / was silent / late, or the cancellation hit the operation); distinct by (operation, cancel mode, shape, RPC count, outcome and return instant)",
-		Clauses: []string{"return-bounded", "cancel-prompt", "chan-closed", "chan-call-prompt", "quiet-after-return", "no-leak", "closed-empty"}},
+		Clauses: []string{"return-bounded", "cancel-prompt", "chan-closed", "chan-call-prompt", "quiet-after-return", "no-leak", "closed-empty", "returns-on-closed-instance"}},
 		func(c *vh.Case) {
 			sc := vC03GenSc(c.R, 150)
 			cm := vC03GenCancel(c.R)
